@@ -178,8 +178,16 @@ def run_case(ctx, mr, case):
                 rel = f'title/{tid >> 32:08x}/{tid & 0xFFFFFFFF:08x}/content'
                 fsobj.makedirs(f'{id0}/{id1}/{rel}')
                 sub = fsobj.opendir(f'{id0}/{id1}')
-                P.write_sdtitle_dir(sub, conts, title_id=tid, present=present, subdir=rel,
+                # the tmd of an installed title is named by a hexadecimal number (00000000.tmd after the first install, counting up
+                # with updates); while an update is being downloaded a second tmd with the next number sits beside the active one
+                tmd_no = rng.choice([0, 0, 1, 9, 0xa, 0x1f, 0xabc, rng.getrandbits(24)])
+                tmd_name = '%08x.tmd' % tmd_no
+                P.write_sdtitle_dir(sub, conts, title_id=tid, tmd_name=tmd_name, present=present, subdir=rel,
                                     sd_encrypt=lambda p, data: sd.sd_crypt(nk, '/' + p.lstrip('/'), data))
+                if rng.random() < 0.4:
+                    pending = '%08x.tmd' % (tmd_no + rng.choice([1, 2, 7]))
+                    sub.writebytes(rel + '/' + pending, sd.sd_crypt(nk, '/' + rel + '/' + pending, pyenv.rbytes(rng, 0x300)))
+                    ctx.stat('sdenc_pending_tmd')
                 # a second ID1 directory (another SD card's data under the same console id), sorting before or after the real one, with
                 # the title directory present but empty: the title must be taken from the ID1 that was asked for
                 decoy = None
@@ -191,7 +199,14 @@ def run_case(ctx, mr, case):
                         decoy = None
                 try:
                     root = SDRoot(fsobj, sd_key=sd.movable_sed(rng, key16, rng.choice([0x10, 0x120, 0x140])))
-                    r = root.open_title('%016X' % tid, id1=id1) if decoy else root.open_title('%016X' % tid)
+                    way = case.get('way') or rng.choice(['title', 'title', 'rel', 'dot', 'abs'])
+                    ctx.stat('sdenc_open_' + way)
+                    if way == 'title':
+                        r = root.open_title('%016X' % tid, id1=id1) if decoy else root.open_title('%016X' % tid)
+                    else:
+                        # the ID1 file system itself, the tmd named relative to it in the spellings a path may have
+                        spelled = {'rel': '', 'dot': './', 'abs': '/'}[way] + rel + '/' + tmd_name
+                        r = SDTitleReader(spelled, fs=root.open_id1(id1))
                 except Exception as ex:
                     ctx.diff('oracle', 'sdenc-open-raises', case, 'a reader', pyenv.errname(ex) + ': ' + str(ex)[:80], 'SD-encrypted title rejected')
                     return
